@@ -7,20 +7,22 @@ import PMV.Proofs.PyCore
 namespace PMV.PyCore
 open PMV
 
+variable {o : Bool}
+
 /-- the claim at fuel `n` -/
-def Mono (ft : FTab) (n : Nat) : Prop :=
-  (∀ s st, exec1 ft n s st ≠ .timeout → exec1 ft (n + 1) s st = exec1 ft n s st) ∧
-  (∀ s l, execL ft n s l ≠ .timeout → execL ft (n + 1) s l = execL ft n s l)
+def Mono (o : Bool) (ft : FTab) (n : Nat) : Prop :=
+  (∀ s st, exec1 ⟨ft, o⟩ n s st ≠ .timeout → exec1 ⟨ft, o⟩ (n + 1) s st = exec1 ⟨ft, o⟩ n s st) ∧
+  (∀ s l, execL ⟨ft, o⟩ n s l ≠ .timeout → execL ⟨ft, o⟩ (n + 1) s l = execL ⟨ft, o⟩ n s l)
 
 theorem execL_cons_ne (ft : FTab) (n : Nat) (s : St) (st : Stmt) (rest : List Stmt)
-    (h : execL ft n s (st :: rest) ≠ .timeout) : exec1 ft n s st ≠ .timeout := by
+    (h : execL ⟨ft, o⟩ n s (st :: rest) ≠ .timeout) : exec1 ⟨ft, o⟩ n s st ≠ .timeout := by
   intro ht
   rw [execL_cons, ht] at h
   exact h rfl
 
-theorem callFn_mono (ft : FTab) (n : Nat) (ih : ∀ m, m < n → Mono ft m)
+theorem callFn_mono (ft : FTab) (n : Nat) (ih : ∀ m, m < n → Mono o ft m)
     (s : St) (f : String) (args : List Expr) (tgt : Option String)
-    (h : callFn ft n s f args tgt ≠ .timeout) : callFn ft (n + 1) s f args tgt = callFn ft n s f args tgt := by
+    (h : callFn ⟨ft, o⟩ n s f args tgt ≠ .timeout) : callFn ⟨ft, o⟩ (n + 1) s f args tgt = callFn ⟨ft, o⟩ n s f args tgt := by
   revert h
   rw [callFn, callFn]
   cases evalArgs s args with
@@ -42,7 +44,7 @@ theorem callFn_mono (ft : FTab) (n : Nat) (ih : ∀ m, m < n → Mono ft m)
           | succ k =>
             simp only
             intro h
-            have hinner : execL ft k { globals := s.globals, locals := some (ps.zip vs), declGlobal := declaredGlobals b, out := s.out } b ≠ .timeout := by
+            have hinner : execL ⟨ft, o⟩ k { globals := s.globals, locals := some (ps.zip vs), declGlobal := declaredGlobals b, out := s.out } b ≠ .timeout := by
               intro ht
               rw [ht] at h
               exact h rfl
@@ -82,10 +84,10 @@ theorem withFinally_ne (r1 : Res Flow) (f : St → Res Flow) (h : withFinally r1
 
 /-- `for` loops: monotone in fuel when body and `else` are, at every fuel up to the current one -/
 theorem execFor_mono (ft : FTab) (body orelse : List Stmt) (N : Nat)
-    (hb : ∀ f, f ≤ N → ∀ s, execL ft f s body ≠ .timeout → execL ft (f + 1) s body = execL ft f s body)
-    (ho : ∀ f, f ≤ N → ∀ s, execL ft f s orelse ≠ .timeout → execL ft (f + 1) s orelse = execL ft f s orelse) :
+    (hb : ∀ f, f ≤ N → ∀ s, execL ⟨ft, o⟩ f s body ≠ .timeout → execL ⟨ft, o⟩ (f + 1) s body = execL ⟨ft, o⟩ f s body)
+    (ho : ∀ f, f ≤ N → ∀ s, execL ⟨ft, o⟩ f s orelse ≠ .timeout → execL ⟨ft, o⟩ (f + 1) s orelse = execL ⟨ft, o⟩ f s orelse) :
     ∀ f, f ≤ N → ∀ (s : St) (x : String) (i k : Int),
-      execFor ft f s x i k body orelse ≠ .timeout → execFor ft (f + 1) s x i k body orelse = execFor ft f s x i k body orelse := by
+      execFor ⟨ft, o⟩ f s x i k body orelse ≠ .timeout → execFor ⟨ft, o⟩ (f + 1) s x i k body orelse = execFor ⟨ft, o⟩ f s x i k body orelse := by
   intro f
   induction f with
   | zero =>
@@ -98,14 +100,14 @@ theorem execFor_mono (ft : FTab) (body orelse : List Stmt) (N : Nat)
   | succ f ihf =>
     intro hf s x i k h
     rw [execFor.eq_2] at h
-    rw [execFor.eq_2, execFor.eq_2 ft s x i k body orelse f]
+    rw [execFor.eq_2, execFor.eq_2 ⟨ft, o⟩ s x i k body orelse f]
     by_cases hik : i < k
     · simp only [hik, if_true] at h ⊢
-      have hbody : execL ft (f + 1) (s.assign x (.int i)) body ≠ .timeout := by
+      have hbody : execL ⟨ft, o⟩ (f + 1) (s.assign x (.int i)) body ≠ .timeout := by
         intro ht; rw [ht] at h; exact h rfl
       rw [hb (f + 1) hf _ hbody]
       revert h
-      cases execL ft (f + 1) (s.assign x (.int i)) body with
+      cases execL ⟨ft, o⟩ (f + 1) (s.assign x (.int i)) body with
       | ok fl =>
         cases fl with
         | normal s' => intro h; exact ihf (Nat.le_of_succ_le hf) s' x (i + 1) k h
@@ -115,25 +117,29 @@ theorem execFor_mono (ft : FTab) (body orelse : List Stmt) (N : Nat)
       | _ => intro _; rfl
     · simp only [hik, if_false] at h ⊢; exact ho (f + 1) hf s h
 
-theorem flat_mono (ft : FTab) (n : Nat) (ih : ∀ m, m < n → Mono ft m) (s : St) (st : Stmt)
-    (hst : isBlockStmt st = false) (h : exec1 ft n s st ≠ .timeout) : exec1 ft (n + 1) s st = exec1 ft n s st := by
+theorem flat_mono (ft : FTab) (n : Nat) (ih : ∀ m, m < n → Mono o ft m) (s : St) (st : Stmt)
+    (hst : isBlockStmt st = false) (h : exec1 ⟨ft, o⟩ n s st ≠ .timeout) : exec1 ⟨ft, o⟩ (n + 1) s st = exec1 ⟨ft, o⟩ n s st := by
   rw [exec1_flat _ _ _ _ hst] at h
   rw [exec1_flat _ _ _ _ hst, exec1_flat _ _ _ _ hst]
   unfold flatExec at h ⊢
-  cases hc : callOf st with
-  | none => rfl
-  | some p =>
-    obtain ⟨f, args, tgt⟩ := p
-    simp only [hc] at h ⊢
-    exact callFn_mono ft n ih s f args tgt h
+  simp only at h ⊢
+  by_cases ha : (o && isAssertStmt st) = true
+  · simp only [ha, if_true]
+  · simp only [ha, Bool.false_eq_true, if_false] at h ⊢
+    cases hc : callOf st with
+    | none => rfl
+    | some p =>
+      obtain ⟨f, args, tgt⟩ := p
+      simp only [hc] at h ⊢
+      exact callFn_mono ft n ih s f args tgt h
 
 mutual
-theorem exec1_mono (ft : FTab) (n : Nat) (ih : ∀ m, m < n → Mono ft m) :
-    (st : Stmt) → (s : St) → exec1 ft n s st ≠ .timeout → exec1 ft (n + 1) s st = exec1 ft n s st
+theorem exec1_mono (ft : FTab) (n : Nat) (ih : ∀ m, m < n → Mono o ft m) :
+    (st : Stmt) → (s : St) → exec1 ⟨ft, o⟩ n s st ≠ .timeout → exec1 ⟨ft, o⟩ (n + 1) s st = exec1 ⟨ft, o⟩ n s st
   | .if_ c body orelse, s, h => by
     rw [exec1.eq_1] at h
     rw [exec1.eq_1, exec1.eq_1]
-    cases hc : evalE s c with
+    cases hc : condE (RunEnv.mk ft o).opt s c with
     | none => rfl
     | some r =>
       cases r with
@@ -160,7 +166,7 @@ theorem exec1_mono (ft : FTab) (n : Nat) (ih : ∀ m, m < n → Mono ft m) :
           · simp only [hv, Bool.false_eq_true, if_false] at h ⊢; exact execL_mono ft 0 ih orelse s h
     | succ k =>
       rw [exec1.eq_3] at h
-      rw [exec1.eq_3, exec1.eq_3 ft s c body orelse k]
+      rw [exec1.eq_3, exec1.eq_3 ⟨ft, o⟩ s c body orelse k]
       cases hc : evalE s c with
       | none => rfl
       | some r =>
@@ -170,11 +176,11 @@ theorem exec1_mono (ft : FTab) (n : Nat) (ih : ∀ m, m < n → Mono ft m) :
           simp only [hc] at h ⊢
           by_cases hv : v.truthy = true
           · simp only [hv, if_true] at h ⊢
-            have hbody : execL ft (k + 1) s body ≠ .timeout := by
+            have hbody : execL ⟨ft, o⟩ (k + 1) s body ≠ .timeout := by
               intro ht; rw [ht] at h; exact h rfl
             rw [execL_mono ft (k + 1) ih body s hbody]
             revert h
-            cases execL ft (k + 1) s body with
+            cases execL ⟨ft, o⟩ (k + 1) s body with
             | ok fl =>
               cases fl with
               | normal s' => intro h; exact (ih k (Nat.lt_succ_self k)).1 s' _ h
@@ -203,12 +209,12 @@ theorem exec1_mono (ft : FTab) (n : Nat) (ih : ∀ m, m < n → Mono ft m) :
           | none => rfl
           | some k =>
             simp only [hk] at h ⊢
-            have hb : ∀ f, f ≤ n → ∀ s, execL ft f s body ≠ .timeout → execL ft (f + 1) s body = execL ft f s body := by
+            have hb : ∀ f, f ≤ n → ∀ s, execL ⟨ft, o⟩ f s body ≠ .timeout → execL ⟨ft, o⟩ (f + 1) s body = execL ⟨ft, o⟩ f s body := by
               intro f hf s' hne
               rcases Nat.lt_or_eq_of_le hf with hlt | heq
               · exact (ih f hlt).2 s' body hne
               · subst heq; exact execL_mono ft f ih body s' hne
-            have ho : ∀ f, f ≤ n → ∀ s, execL ft f s orelse ≠ .timeout → execL ft (f + 1) s orelse = execL ft f s orelse := by
+            have ho : ∀ f, f ≤ n → ∀ s, execL ⟨ft, o⟩ f s orelse ≠ .timeout → execL ⟨ft, o⟩ (f + 1) s orelse = execL ⟨ft, o⟩ f s orelse := by
               intro f hf s' hne
               rcases Nat.lt_or_eq_of_le hf with hlt | heq
               · exact (ih f hlt).2 s' orelse hne
@@ -220,8 +226,8 @@ theorem exec1_mono (ft : FTab) (n : Nat) (ih : ∀ m, m < n → Mono ft m) :
     have h1 := withFinally_ne _ _ h
     have h0 := afterBody_ne _ _ _ h1
     rw [execL_mono ft n ih body s h0]
-    have hab : afterBody (execL ft n s body) (fun s1 => execL ft (n + 1) s1 orelse) (fun x s1 => execH ft (n + 1) s1 x hs)
-        = afterBody (execL ft n s body) (fun s1 => execL ft n s1 orelse) (fun x s1 => execH ft n s1 x hs) :=
+    have hab : afterBody (execL ⟨ft, o⟩ n s body) (fun s1 => execL ⟨ft, o⟩ (n + 1) s1 orelse) (fun x s1 => execH ⟨ft, o⟩ (n + 1) s1 x hs)
+        = afterBody (execL ⟨ft, o⟩ n s body) (fun s1 => execL ⟨ft, o⟩ n s1 orelse) (fun x s1 => execH ⟨ft, o⟩ n s1 x hs) :=
       afterBody_mono _ _ _ _ _ h1 (fun s1 hne => execL_mono ft n ih orelse s1 hne) (fun x s1 hne => execH_mono ft n ih hs s1 x hne)
     rw [hab]
     exact withFinally_mono _ _ _ h (fun s1 hne => execL_mono ft n ih fin s1 hne)
@@ -247,22 +253,22 @@ theorem exec1_mono (ft : FTab) (n : Nat) (ih : ∀ m, m < n → Mono ft m) :
   | .pass, s, h => flat_mono ft n ih s _ rfl h
   | .break_, s, h => flat_mono ft n ih s _ rfl h
   | .continue_, s, h => flat_mono ft n ih s _ rfl h
-theorem execL_mono (ft : FTab) (n : Nat) (ih : ∀ m, m < n → Mono ft m) :
-    (l : List Stmt) → (s : St) → execL ft n s l ≠ .timeout → execL ft (n + 1) s l = execL ft n s l
+theorem execL_mono (ft : FTab) (n : Nat) (ih : ∀ m, m < n → Mono o ft m) :
+    (l : List Stmt) → (s : St) → execL ⟨ft, o⟩ n s l ≠ .timeout → execL ⟨ft, o⟩ (n + 1) s l = execL ⟨ft, o⟩ n s l
   | [], s, _ => by rw [execL_nil, execL_nil]
   | st :: rest, s, h => by
     have h1 := execL_cons_ne ft n s st rest h
     rw [execL_cons] at h
     rw [execL_cons, execL_cons, exec1_mono ft n ih st s h1]
     revert h
-    cases exec1 ft n s st with
+    cases exec1 ⟨ft, o⟩ n s st with
     | ok fl =>
       cases fl with
       | normal s' => intro h; exact execL_mono ft n ih rest s' h
       | _ => intro _; rfl
     | _ => intro _; rfl
-theorem execH_mono (ft : FTab) (n : Nat) (ih : ∀ m, m < n → Mono ft m) :
-    (hs : List Handler) → (s : St) → (x : String) → execH ft n s x hs ≠ .timeout → execH ft (n + 1) s x hs = execH ft n s x hs
+theorem execH_mono (ft : FTab) (n : Nat) (ih : ∀ m, m < n → Mono o ft m) :
+    (hs : List Handler) → (s : St) → (x : String) → execH ⟨ft, o⟩ n s x hs ≠ .timeout → execH ⟨ft, o⟩ (n + 1) s x hs = execH ⟨ft, o⟩ n s x hs
   | [], s, x, _ => by rw [execH.eq_1, execH.eq_1]
   | .mk ty nm hbody :: rest, s, x, h => by
     rw [execH.eq_2] at h
@@ -281,27 +287,27 @@ end PMV.PyCore
 namespace PMV.PyCore
 open PMV
 
-theorem mono_all (ft : FTab) (n : Nat) : Mono ft n := by
+theorem mono_all (ft : FTab) (n : Nat) : Mono o ft n := by
   induction n using Nat.strongRecOn with
   | _ n ih => exact ⟨fun s st h => exec1_mono ft n ih st s h, fun s l h => execL_mono ft n ih l s h⟩
 
 /-- more fuel never changes a finished run -/
-theorem execL_more_fuel (ft : FTab) (n k : Nat) (s : St) (l : List Stmt) (h : execL ft n s l ≠ .timeout) :
-    execL ft (n + k) s l = execL ft n s l := by
+theorem execL_more_fuel (ft : FTab) (n k : Nat) (s : St) (l : List Stmt) (h : execL ⟨ft, o⟩ n s l ≠ .timeout) :
+    execL ⟨ft, o⟩ (n + k) s l = execL ⟨ft, o⟩ n s l := by
   induction k with
   | zero => rfl
   | succ k ihk =>
-    have : execL ft (n + k) s l ≠ .timeout := by rw [ihk]; exact h
+    have : execL ⟨ft, o⟩ (n + k) s l ≠ .timeout := by rw [ihk]; exact h
     rw [← Nat.add_assoc, (mono_all ft (n + k)).2 s l this, ihk]
 
 /-- T01.9: a module whose run ends within fuel `n` (it does not end in `timeout`) behaves identically with any larger
     fuel: the observable of a terminating program does not depend on the bound. -/
 theorem run_more_fuel (n k : Nat) (m : Module) (h : (run n m).ending ≠ "timeout") : run (n + k) m = run n m := by
   unfold run at *
-  have hne : execL (collect m.body) n St.init m.body ≠ .timeout := by
+  have hne : execL ⟨collect m.body, false⟩ n St.init m.body ≠ .timeout := by
     intro ht
     rw [ht] at h
     exact h rfl
-  rw [execL_more_fuel _ n k _ _ hne]
+  rw [execL_more_fuel (o := false) _ n k _ _ hne]
 
 end PMV.PyCore
